@@ -50,6 +50,9 @@ CHECKS = {
  "C10": ("Exhaustive exploration of (function-free program, document, layout) states: single-clause programs over the query alphabet with literal and query right-hand sides and query blocks, plus a subset of the composite BFS universe x documents x 29 layouts written by the harness's own position-tracking writer (JSON compact / pretty 2 / 4, flow one-line / wrapped, block YAML indent 2 / 4 x leading --- x comment lines x blank lines, single / double quoting, leading blank lines); for every check of validate --structured -o json each {path, value} pair must resolve in the source document to exactly that value, an unresolved check's traversed_to must be a point where an independent walk of the query gets stuck, and every Path=<p>[L:l,C:c] naming a scalar must carry the line / column at which the writer put that scalar.",
          "Trusted base: the position-tracking writer, the JSON-pointer resolver, the independent stuck-point walk (uses the reference interpreter only to evaluate filters). Quick runs a rotating third of the layouts per (program, document) pair.",
          "exhaustive enumeration of programs x documents x layouts; reported pointers, values and positions checked against the generated source text"),
+ "C18": ("Exhaustive enumeration of (function, argument form, argument values) states: every unary built-in x {literal, query, variable, [*] over homogeneous and mixed lists, list with unresolved members, empty filtered selection, nested call} x an alphabet of 23 strings (unicode, numeric, boolean-looking, percent-encoded valid / invalid, JSON texts) and 9 non-string values; substring over all index pairs of strings with 1..4-byte characters plus odd and query-valued indices; join over all 0..3-element selections x 4 delimiters plus non-string / unresolved members and query delimiters; regex_replace over a pattern x string table; count over the whole query alphabet x documents; parse_int(parse_string(n)) over boundary ints; json_parse round trip of every document; function results used in later clauses. The yielded values are dumped by a deliberately failing clause and compared in order with an independent implementation; errors must occur exactly where the documentation says.",
+         "Trusted base: reffn.rs (std string methods, hand-written percent decoder, serde_json, the mini regex matcher). [pin] regex_replace yields the concatenated replacements per match; substring on non-ASCII strings and json_parse of non-JSON text are only required not to crash.",
+         "exhaustive enumeration of functions x argument forms x values against an independent reference implementation"),
 }
 PENDING_REASON = "check under construction in this round (design in DESIGN.md section 5); not claimed until its quick tier runs clean on the unchanged tree"
 ALL = ["C%02d" % i for i in range(1, 20)]
